@@ -287,9 +287,9 @@ def record_protocol(ctx, rule, once_rule=None):
         # to[0] is bound to the current object before the operation; the post-state follows the write-back
         pre_stores = [s for s in ff.stores if s[2] == 'step.to[0]' and _inside(s[0], node)]
         op_calls = [(c, s, b) for c, s, b in ff.calls if _is_operation(c.orig if hasattr(c, 'orig') else c) and _inside(s, node)]
-        first_op = min((getattr(s, 'lineno', 0) for c, s, b in op_calls), default=None)
+        first_op = min((ff.seq(s) for c, s, b in op_calls), default=None)       # execution order, not line order
         ok_pre = bool(pre_stores) and first_op is not None and all(
-            s[0].lineno < first_op and _reads_results(s[3]) for s in pre_stores)
+            ff.seq(s[0]) < first_op and _reads_results(s[3]) for s in pre_stores)
         ctx.ob(rule, bake, (pre_stores[0][0].lineno if pre_stores else node.lineno),
                f"`{op}` branch: step.to[0] is bound to the current object before the operation", ok_pre,
                fact=f"{len(pre_stores)} binding(s) of step.to[0]" + (f" = {show(pre_stores[0][3], 40)}" if pre_stores else ''),
@@ -301,7 +301,7 @@ def record_protocol(ctx, rule, once_rule=None):
         for c, s, b in appends:
             a = c.args[0] if c.args else None
             is_result = _is_results_ref(a)
-            after_ops = first_op is not None and s.lineno > first_op
+            after_ops = first_op is not None and ff.seq(s) > first_op
             fact = f"appends {show(a, 40)}"
             if not (is_result and after_ops):
                 ok_post = False
@@ -345,7 +345,7 @@ def substances_used(ctx):
         adds = [(c, s, b) for c, s, b in ff.calls if isinstance(c.func, ast.Attribute) and c.func.attr == 'add' and
                 getattr(c.func.value, 'pkey', None) == 'step.substances_used' and _inside(s, node)]
         op_calls = [(c, s, b) for c, s, b in ff.calls if _is_operation(c.orig if hasattr(c, 'orig') else c) and _inside(s, node)]
-        first_op = min((getattr(s, 'lineno', 0) for c, s, b in op_calls), default=0)
+        first_op = min((ff.seq(s) for c, s, b in op_calls), default=0)
         ok, fact = False, f"{len(stores)} store(s), {len(adds)} add(s)"
         if op == 'transfer':
             # the source's pre-state substances
@@ -369,7 +369,7 @@ def substances_used(ctx):
         elif op in ('create_container', 'solution', 'solution_from'):
             if len(stores) == 1:
                 v = strip_refs(stores[0][3])
-                post = stores[0][0].lineno > first_op
+                post = ff.seq(stores[0][0]) > first_op
                 recv = v.func.value if isinstance(v, ast.Call) and isinstance(v.func, ast.Attribute) else None
                 created = _is_results_ref(recv)
                 ok = post and created and call_name(v)[1] == 'get_substances'
